@@ -167,8 +167,10 @@ class SelectEventLoop(EventLoop):
         """
         Call all the registered idle callbacks.
         """
-        for callback in list(self._idle_callbacks.values()):
-            callback()
+        for handle in list(self._idle_callbacks):
+            callback = self._idle_callbacks.get(handle)
+            if callback is not None:  # not removed by an idle callback called before it
+                callback()
 
     def run(self) -> None:
         """
